@@ -79,3 +79,8 @@ claim("C12",
       "Decides that the scan removes a message only on the true edge of an older-than-(now−period) test of that same message and addresses it by its own mailbox and id, that the scan is reachable only where retentionPeriod > 0, that every blocking point of the scanner observes ctx.Done() and every exit of Start closes the channel Join waits on, and that both stores call the visitor lock-free with a fresh slice. Clock boundaries, scans racing with directory changes, and promptness in seconds are not decided.",
       "Trusts go/ssa and time package semantics.",
       "DESIGN.md section 4, C12")
+claim("C10",
+      "must-pass-through (mutation → writeIndex) over go/ssa with caller lifting, codec writer/reader table agreement, struct-field exportedness and type tables, guard-before-read fixpoint, normalised SSA expression comparison of the two mailbox constructors",
+      "Decides that every mutation of a file-store mailbox is persisted before a success return, that the index writer and reader agree on record order and types and that every persisted field is exported and is what the getters return, that the store keeps no mailbox state in memory and loads the index before every use, that opening the store destroys nothing, and that the by-name and by-hash constructors compute the same paths and lock. Equality of data read back after a restart is not decided.",
+      "Trusts go/ssa and encoding/gob round-tripping exported fields.",
+      "DESIGN.md section 4, C10")
